@@ -419,7 +419,7 @@ def run(tier="quick"):
     rep.assumptions = ["only the eight named obligation classes are decided; general absence of undefined behaviour is not claimed",
                        "the event queue is the thread's only container reached through a global; other heaps are identified by "
                        "their base expression"]
-    rep.not_decided = ["index arithmetic (e.g. five-number summary of a one-sample dataset), integer overflow, float-to-int "
+    rep.not_decided = ["index arithmetic outside the rules named (the median helper is decided in C18), integer overflow, float-to-int "
                        "conversions"]
     for m in models:
         rep.configs.append(m.config)
